@@ -23,11 +23,11 @@ def annotation(kind, T):
             'union': Union[int, T], 'dictlist': Dict[str, List[T]]}[kind]
 
 
-def chain(m, D, kind):
+def chain(m, D, kind, extra=None):
     """D data classes N1 -> N2 -> ... -> ND (no forward references), each limited to max_depth=m"""
     prev = None
     for level in range(D, 0, -1):
-        ns = {'__options__': Options(max_depth=m), '__annotations__': {'v': int}, 'v': 0,
+        ns = {'__options__': Options(max_depth=m, **(extra or {})), '__annotations__': {'v': int}, 'v': 0,
               '__module__': __name__, '__qualname__': 'N%d' % level}
         if prev is not None:
             ns['__annotations__']['c'] = annotation(kind, prev)
@@ -72,8 +72,10 @@ def _exact(V, kind):
     depth = 1
     while depth < D and not (d == depth):
         depth += 1
+    # the limit holds whatever else the options say about error handling
+    extra = V.pick('options', [{}, {'collect_errors': True}, {'collect_errors': True, 'ignore_constraints': True}])
     with V.notrace():
-        cls = chain(m, D, kind)
+        cls = chain(m, D, kind, extra)
     x = build(V, kind, depth)
     r = attempt(cls, **x)
     V.check(r[0] != 'crash', 'depth:crash', lambda: '%r -> %r' % (x, r[1]))
@@ -100,8 +102,8 @@ def _has_depth_error(e):
 
 
 for _k in KINDS:
-    ob('exact/' + _k, marks=['accept', 'reject'], budget=(60, 400), per_path=(15, 30),
-       bounds='route kind %s; chain of D data classes (D=4 quick (3 for dictlist), 5 thorough) each with Options(max_depth=m); m in 1..D+1 '
+    ob('exact/' + _k, marks=['accept', 'reject'], budget=(200, 600), per_path=(15, 30),
+       bounds='route kind %s; chain of D data classes (D=4 quick (3 for dictlist), 5 thorough) each with Options(max_depth=m) alone, with collect_errors, and with collect_errors + ignore_constraints; m in 1..D+1 '
               'and the input depth d in 1..D are solver integers; the position of the nested value at every level is '
               'solver-chosen: list/tuple index 0..1 (thorough: 0..2 + optional trailing element at the outermost level), mapping key a symbolic string of '
               'length <= 1 over {a,b} (includes the empty key); the innermost node provides a field, nothing, or only an unknown key; accepted <=> d <= m' % _k,
@@ -273,6 +275,36 @@ def exact_runtime_override(V):
     # (the decorated function's own parameter context is the outermost level: the limit counts it)
     expect = (d + 1 <= m) if via == 'function' else (d <= m)
     V.check(ok == expect, 'depth:' + ('rejected-within-limit' if expect else 'accepted-beyond-limit') + ':override', det)
+    V.cover('accept' if ok else 'reject')
+
+
+def _decorated(m):
+    import utype as _u
+
+    @_u.dataclass(options=Options(max_depth=m))
+    class DN:
+        v: int = 0
+        c: Optional['DN'] = None
+        kids: List['DN'] = Field(default_factory=list)
+    return DN
+
+
+@ob('self-ref/decorated-dataclass', marks=['accept', 'reject'], budget=(60, 200),
+    bounds='a self-referential class declared with @utype.dataclass(options=Options(max_depth=m)) (its own converter is looked up while '
+           'its fields are generated), created per path, m in 1..3; depth d in 1..4 through Optional / List routes: accepted <=> d <= m')
+def self_ref_decorated(V):
+    m = V.pick('m', [1, 2, 3])
+    d = V.pick('d', [1, 2, 3, 4])
+    with V.notrace():
+        cls = _decorated(m)
+    x = {'v': 1}
+    for level in range(d - 1, 0, -1):
+        x = {'v': level, 'c': x} if V.bool('via_c%d' % level) else {'v': level, 'kids': [x]}
+    r = attempt(cls, **x)
+    ok = r[0] == 'ok'
+    V.check(r[0] != 'crash' or isinstance(r[1], exc.ParseError), 'depth:crash', lambda: repr(r[1]))
+    V.check(ok == (d <= m), 'depth:' + ('rejected-within-limit' if d <= m else 'accepted-beyond-limit') + ':decorated',
+            lambda: '@dataclass max_depth=%d depth=%d input=%r accepted=%r%s' % (m, d, x, ok, '' if ok else ' error=%r' % (r[1],)))
     V.cover('accept' if ok else 'reject')
 
 
